@@ -16,23 +16,31 @@ Qed.
 
 Section ByPass.
 Variable mx : Z.
+Variable kp : Z.
 
 Lemma k_finish_B tnt x2 d w t b evs out :
-  J mx tnt x2 d (Some w) t -> wl_post x2 w out -> out <> WFuel -> BI (pw_workers x2) b ->
+  J mx kp tnt x2 d (Some w) t -> wl_post x2 w out -> BI (pw_workers x2) b ->
   exists x' r evs', k_finish x2 w evs out = (x', r, evs ++ evs') /\ BI (pw_workers x') (fold_left by_ev evs' b).
 Proof.
-  intros HJ Hpost Hnf HB. unfold k_finish. destruct out; cbn [wl_post] in Hpost; try contradiction.
-  pose proof (jp_pools _ _ _ (j_p _ _ _ _ _ _ _ HJ)) as Hpools. pose proof (jp_cur _ _ _ (j_p _ _ _ _ _ _ _ HJ)) as Hcur.
-  - destruct Hpost as (k & i & rest & Hk & Hl & Hdead & Htp & Hts & Htask & [[Est Hb]|(y & n & ts & Est & Hb)]).
-    + rewrite Hk, Est. rewrite (jp_cn _ _ _ (j_p _ _ _ _ _ _ _ HJ)). cbn [pop_front].
+  intros HJ Hpost HB. unfold k_finish. destruct out; cbn [wl_post] in Hpost; try contradiction.
+  pose proof (jp_pools _ _ _ _ (j_p _ _ _ _ _ _ _ _ HJ)) as Hpools. pose proof (jp_cur _ _ _ _ (j_p _ _ _ _ _ _ _ _ HJ)) as Hcur.
+  3:{ eexists _, _, []. rewrite app_nil_r. split; [reflexivity | exact HB]. }
+  - destruct Hpost as [(k & i & rest & Hk & Hl & Hdead & Htp & Hts & Htask & Hcase)|(k & Hk & Hl & Hdead & Htp & Hts & Htask & Est & Hnil)].
+    2:{ rewrite Hk, Est. rewrite (jp_cn _ _ _ _ (j_p _ _ _ _ _ _ _ _ HJ)). cbn [pop_front].
+        destruct (pop_front 0 (pw_ts x2)) as [ts ts'] eqn:Ep.
+        match goal with |- context [k_change ?a ?b ?c] => destruct (k_change a b c) as [x3 e3] eqn:Ekc end.
+        eexists _, _, _. split; [reflexivity|].
+        eapply (k_change_B _ _ _ _ _ b _ _ Ekc); [discriminate | exact HB]. }
+    destruct Hcase as [[Est Hb]|(y & n & ts & Est & Hb)].
+    + rewrite Hk, Est. rewrite (jp_cn _ _ _ _ (j_p _ _ _ _ _ _ _ _ HJ)). cbn [pop_front].
       destruct (pop_front 0 (pw_ts x2)) as [ts ts'] eqn:Ep.
       match goal with |- context [k_change ?a ?b ?c] => destruct (k_change a b c) as [x3 e3] eqn:Ekc end.
       eexists _, _, _. split; [reflexivity|].
       eapply (k_change_B _ _ _ _ _ b _ _ Ekc); [discriminate | exact HB].
-    + rewrite Hk, Est. rewrite (jp_cn _ _ _ (j_p _ _ _ _ _ _ _ HJ)). cbn [pop_front].
+    + rewrite Hk, Est. rewrite (jp_cn _ _ _ _ (j_p _ _ _ _ _ _ _ _ HJ)). cbn [pop_front].
       destruct (pop_front 0 (pw_ts x2)) as [ts0 ts'] eqn:Ep.
       eexists _, _, []. rewrite app_nil_r. split; [reflexivity|]. exact HB.
-  - pose proof (jp_pools _ _ _ (j_p _ _ _ _ _ _ _ HJ)) as Hpools. pose proof (jp_cur _ _ _ (j_p _ _ _ _ _ _ _ HJ)) as Hcur.
+  - pose proof (jp_pools _ _ _ _ (j_p _ _ _ _ _ _ _ _ HJ)) as Hpools. pose proof (jp_cur _ _ _ _ (j_p _ _ _ _ _ _ _ _ HJ)) as Hcur.
     destruct Hpost as (k & Hk & Hl & Est & Htask & Hdead & Htp & Hnil & Hts).
     rewrite Hk, Est. unfold k_dead_mark. rewrite Hk.
     destruct (k_change (upd_worker x2 w (with_dead k)) w (Complete (-1))) as [x3 e3] eqn:Ekc.
@@ -43,20 +51,20 @@ Proof.
 Qed.
 
 Lemma k_resume_B tnt x d w t b :
-  J mx tnt x d (Some w) t -> quiet_off t -> G mx x (Some w) -> parked_ok x w -> ~ In w (pw_cancel_cos x) -> pw_ts x = [] ->
+  J mx kp tnt x d (Some w) t -> quiet_off t -> G mx x (Some w) -> parked_ok x w -> ~ In w (pw_cancel_cos x) -> pw_ts x = [] ->
   BI (pw_workers x) b ->
   exists x' r evs, k_resume x w = (x', r, evs) /\ BI (pw_workers x') (fold_left by_ev evs b).
 Proof.
   intros HJ Hq HG (k & m & Hk & Hl & Hdead & Htp & Hres & Hpm & Hbody) Hncc Hts HB.
   set (xd := k_defect x w).
-  assert (J mx tnt xd d (Some w) t /\ get_worker xd w = Some k /\ G mx xd (Some w) /\ pw_cancel_cos xd = pw_cancel_cos x /\
+  assert (J mx kp tnt xd d (Some w) t /\ get_worker xd w = Some k /\ G mx xd (Some w) /\ pw_cancel_cos xd = pw_cancel_cos x /\
           pw_ts xd = [] /\ pw_clock xd = pw_clock x /\ pw_workers xd = pw_workers x) as (HJd & Hkd & HGd & Eccd & Htsd & Ecd & Ewd).
   { unfold xd, k_defect. destruct (Nat.eqb _ _); [auto 10|].
     split; [apply J_add_defect, HJ|]. split; [exact Hk|]. split; [|auto 10].
     eapply (G_frame mx x); [reflexivity | reflexivity | reflexivity | exact HG]. }
   rewrite (k_resume_eq x w k Hkd). cbv zeta. fold xd.
   assert (forall x1 ev1 m1,
-            J mx tnt x1 d (Some w) (fold_left pev ev1 t) -> G mx x1 (Some w) -> pw_cancel_cos x1 = pw_cancel_cos x ->
+            J mx kp tnt x1 d (Some w) (fold_left pev ev1 t) -> G mx x1 (Some w) -> pw_cancel_cos x1 = pw_cancel_cos x ->
             pw_ts x1 = [] -> BI (pw_workers x1) (fold_left by_ev ev1 b) ->
             forall k1, get_worker x1 w = Some k1 -> live k1 = true -> k_dead k1 = false -> k_tpool k1 = 0%nat ->
             imode (k_st k1) = Some m1 -> match k_task k1 with Some (_, rest) => body_from m1 rest = true | None => m1 = MRun end ->
@@ -65,34 +73,32 @@ Proof.
   { intros x1 ev1 m1 HJ1 HG1 Ecc1 Hts1 HB1 k1 Hk1 Hl1 Hd1 Htp1 Him1 Hb1.
     assert (hole_ok x1 w) as Hh1 by (eapply hole_ok_intro; eassumption).
     assert (~ In w (pw_cancel_cos x1)) as Hncc1 by (rewrite Ecc1; exact Hncc).
-    destruct (wloop_J mx (wfuel x1) tnt x1 d w ev1 (fold_left pev ev1 t) HJ1 (quiet_off_fold _ _ Hq) HG1 Hh1 Hncc1 Hts1)
-      as (x2 & evs & out & Ew & HJ2 & HG2 & Ecc2 & _ & Hc2 & Hpost & Hr2 & Hnf).
-    destruct (wloop_BI mx (wfuel x1) tnt x1 d w ev1 (fold_left pev ev1 t) (fold_left by_ev ev1 b) HJ1 (quiet_off_fold _ _ Hq) HG1 Hh1 Hncc1 Hts1 HB1)
+    destruct (wloop_J mx kp (wfuel x1) tnt x1 d w ev1 (fold_left pev ev1 t) HJ1 (quiet_off_fold _ _ Hq) HG1 Hh1 Hncc1 Hts1)
+      as (x2 & evs & out & Ew & HJ2 & HG2 & Ecc2 & _ & Hc2 & Hpost & _).
+    destruct (wloop_BI mx kp (wfuel x1) tnt x1 d w ev1 (fold_left pev ev1 t) (fold_left by_ev ev1 b) HJ1 (quiet_off_fold _ _ Hq) HG1 Hh1 Hncc1 Hts1 HB1)
       as (x2' & evsb & out' & Ewb & HB2).
     rewrite Ew in Ewb. injection Ewb as <- Eev <-. apply app_inv_head in Eev. subst evsb.
     rewrite Ew.
-    pose proof (Hnf k1 Hk1 (mu_bound mx tnt x1 d (Some w) _ w k1 HJ1 Hk1 Hl1)) as Hnf'.
-    destruct (k_finish_B tnt x2 d w (fold_left pev evs (fold_left pev ev1 t)) (fold_left by_ev evs (fold_left by_ev ev1 b)) (ev1 ++ evs) out HJ2 Hpost Hnf' HB2)
+    destruct (k_finish_B tnt x2 d w (fold_left pev evs (fold_left pev ev1 t)) (fold_left by_ev evs (fold_left by_ev ev1 b)) (ev1 ++ evs) out HJ2 Hpost HB2)
       as (x' & r & evs' & Ef & HB').
     exists x', r, ((ev1 ++ evs) ++ evs'). split; [exact Ef|]. rewrite !fold_left_app. exact HB'. }
-  pose proof (jp_pools _ _ _ (j_p _ _ _ _ _ _ _ HJd)) as Hpools. pose proof (jp_cur _ _ _ (j_p _ _ _ _ _ _ _ HJd)) as Hcur.
+  pose proof (jp_pools _ _ _ _ (j_p _ _ _ _ _ _ _ _ HJd)) as Hpools. pose proof (jp_cur _ _ _ _ (j_p _ _ _ _ _ _ _ _ HJd)) as Hcur.
   assert (BI (pw_workers xd) b) as HBd by (rewrite Ewd; exact HB).
   destruct Hres as [Est|[(y & ts & Est & Hle)|(y & n & Est)]]; rewrite Est in *.
   - cbn [tr_running].
-    destruct (J_k_change mx tnt xd d w t k Running HJd Hq Hkd Hl ltac:(discriminate))
+    destruct (J_k_change mx kp tnt xd d w t k Running HJd Hq Hkd Hl ltac:(discriminate))
       as (x1 & Ekc & HJ1 & Hm1 & Hk1 & _ & HG1b & _).
     pose proof (k_change_B _ _ _ _ _ b Hpools Hcur Ekc ltac:(discriminate) HBd) as HB1.
     rewrite Ekc, Hdead. rewrite Est. destruct Hm1 as [M1 M2 M3 M4 M5 M6].
     eapply (Htail x1 _ MRun); [exact HJ1 | apply HG1b; auto | congruence | congruence | exact HB1 | exact Hk1 | reflexivity | exact Hdead | exact Htp | reflexivity|].
     cbn [with_st k_task]. cbn [pmode] in Hpm. injection Hpm as <-. destruct (k_task k) as [[i rest]|]; [exact Hbody | apply Hbody].
   - cbn [tr_running]. rewrite Ecd. assert (ts <=? pw_clock x = true) as -> by lia.
-    destruct (J_k_change mx tnt xd d w t k Running HJd Hq Hkd Hl ltac:(discriminate))
+    destruct (J_k_change mx kp tnt xd d w t k Running HJd Hq Hkd Hl ltac:(discriminate))
       as (x1 & Ekc & HJ1 & Hm1 & Hk1 & _ & HG1b & _).
     pose proof (k_change_B _ _ _ _ _ b Hpools Hcur Ekc ltac:(discriminate) HBd) as HB1.
     rewrite Ekc, Hdead. rewrite Est. destruct Hm1 as [M1 M2 M3 M4 M5 M6].
     eapply (Htail x1 _ MRun); [exact HJ1 | apply HG1b; auto | congruence | congruence | exact HB1 | exact Hk1 | reflexivity | exact Hdead | exact Htp | reflexivity|].
-    cbn [with_st k_task]. cbn [pmode] in Hpm. injection Hpm as <-. destruct (k_task k) as [[i rest]|]; [exact Hbody|].
-    destruct Hbody as [_ Hb]. discriminate.
+    cbn [with_st k_task]. cbn [pmode] in Hpm. injection Hpm as <-. destruct (k_task k) as [[i rest]|]; [exact Hbody | apply Hbody].
   - cbn [tr_running]. rewrite Hdead. cbn [pmode] in Hpm. injection Hpm as <-.
     eapply (Htail xd [] (MWoken n)); [exact HJd | exact HGd | exact Eccd | exact Htsd | exact HBd | exact Hkd | exact Hl | exact Hdead | exact Htp | rewrite Est; reflexivity|].
     destruct (k_task k) as [[i rest]|]; [exact Hbody|]. destruct Hbody as [Hb _]. discriminate.
